@@ -90,6 +90,40 @@ def classify(hist, ev, cfg, live):
     return None
 
 
+RECORDED = []     # fault-free recorded runs (tag, cfg, steps, shim log) for the trace validation against Durability.tla
+
+
+def protocol_conformance(ck):
+    """Every recorded fault-free run must be a behaviour of Durability.tla (DurabilityTrace.tla): binds the S2 model -
+    whose crash-safety invariants TLC has just checked exhaustively - to the code.  A rejected trace is MODEL-DRIFT."""
+    import durtrace
+    if not RECORDED:
+        return
+    res = durtrace.validate(ck, RECORDED, CONSTS["NI"], CONSTS["NV"])
+    acc = sum(1 for v in res.values() if v[0])
+    nev = sum(v[1] for v in res.values())
+    for tag, (ok, got, total, nxt, problems, viol) in sorted(res.items()):
+        if not ok:
+            ck.drift("protocol trace of %s is not a behaviour of Durability.tla: %d of %d events matched; next event %s; %s%s"
+                     % (tag, got, total, json.dumps({k: v for k, v in (nxt or {}).items() if v not in (0, "", [])}), "; ".join(problems[:2]),
+                        ("; model invariant %s violated on the image" % viol) if viol else ""))
+    ck.cov["protocol_traces"] = {"recorded_runs": len(res), "accepted_by_Durability_tla": acc, "events_matched": nev}
+    ck.cov["traces_validated_against_impl"] += acc
+    # self-test of the binding: one protocol-relevant change in an accepted real trace must make TLC reject it
+    good = [it for it in RECORDED if res[it[0]][0]]
+    rich = sorted(good, key=lambda it: -sum(1 for e in durtrace.protocol_events(it[3], it[2], 1)[0] if e["e"] in ("unlink", "segcreate")))
+    if rich:
+        tag, cfg, steps, entries = rich[0]
+        evs = durtrace.protocol_events(entries, steps, 1)[0]
+        cases = durtrace.corruptions(evs)
+        r2 = durtrace.validate(ck, [("selftest: " + name, cfg, steps, {"events": c}) for name, c in cases], CONSTS["NI"], CONSTS["NV"],
+                               label="DurabilityTrace self-test (corrupted copies of %s)" % tag)
+        missed = [t for t, v in r2.items() if v[0]]
+        if missed or len(cases) < 4:
+            raise vlib.ToolError("DurabilityTrace self-test: %d corruptions, accepted although corrupted: %s" % (len(cases), missed))
+        ck.cov["protocol_traces"]["selftest_corruptions_rejected"] = len(cases)
+
+
 def explore_history(ck, hi, hist, cfg, tier, rng, trace, counters):
     sd = os.path.join(scratch(), "c01.h%d" % hi)
     shutil.rmtree(sd, ignore_errors=True)
@@ -110,6 +144,7 @@ def explore_history(ck, hi, hist, cfg, tier, rng, trace, counters):
     N = len(elog.abstract)
     live = [r["live"]["state"] for r in (out or {}).get("results", [])]
     trace.append({"ev": "hist", "ops": steps, "hi": hi, "cfg": cfg, "effects": N, "live": live})
+    RECORDED.append(("history %d" % hi, cfg, steps, entries))
     cdir = os.path.join(sd, "crash")
 
     def judge(model, k, st, outcome, extra=None):
@@ -211,6 +246,7 @@ def run(tier, only=None):
             continue
         cfg = pick_cfg(rng, hi + seed())
         neff += explore_history(ck, hi, h, cfg, tier, rng, trace, counters)
+    protocol_conformance(ck)
     return judge_trace(ck, trace, counters, neff)
 
 
